@@ -85,7 +85,15 @@ TrStep ==
                     /\ sent' = (IF obs = None THEN sent ELSE obs[1])
                     /\ UNCHANGED cfg
 
-TrNext == TrReset \/ TrStep
+(* The task was stopped and started again (same topic): Ref continues, Impl   *)
+(* restores from what the topic remembers.                                   *)
+TrRestart ==
+    /\ IsEv("Restart")
+    /\ CanRestart(cfg)
+    /\ im' = ImplRestore(cfg, im)
+    /\ UNCHANGED <<cfg, rf, out, chk, clk, drift, sent>>
+
+TrNext == TrReset \/ TrStep \/ TrRestart
 TrSpec == TrInit /\ [][TrNext]_tvars
 
 Verdict == chk.level /\ chk.emit /\ chk.carries
